@@ -159,8 +159,13 @@ var (
 )
 
 func startServer() {
-	ln = vh.NewListener()
-	srv = imapserver.New(&imapserver.Options{
+	srv, ln = newServer()
+}
+
+// newServer builds a server + listener (a private one is used for cases that end with Server.Close).
+func newServer() (*imapserver.Server, *vh.Listener) {
+	ln := vh.NewListener()
+	srv := imapserver.New(&imapserver.Options{
 		Caps:         imap.CapSet{imap.CapIMAP4rev1: {}, imap.CapMove: {}, imap.CapNamespace: {}, imap.CapUnauthenticate: {}},
 		InsecureAuth: true,
 		Logger:       srvLog,
@@ -171,6 +176,7 @@ func startServer() {
 		},
 	})
 	go srv.Serve(ln)
+	return srv, ln
 }
 
 var transcripts = map[string]string{
@@ -209,6 +215,10 @@ var panicSeen int64
 // runConn plays one case and returns the ordered life-cycle events.
 func runConn(cs *caseT) *outcome {
 	l := &connLog{done: make(chan struct{})}
+	ln, srv := ln, srv
+	if cs.Cut == "server-close" {
+		srv, ln = newServer() // Server.Close is final: this case gets its own server
+	}
 	c, sc, err := ln.Dial2(func(server *vh.Conn) {
 		reg.Put(server, l)
 		server.OnClose = func() { l.add(evT{"ev": "ConnClosed"}); close(l.done) }
@@ -244,6 +254,27 @@ func runConn(cs *caseT) *outcome {
 		}
 		l.add(evT{"ev": "Cut"})
 		c.CloseWrite()
+	case "server-close":
+		// the operator shuts the server down while the connection is in whatever mode it reached
+		last, still := int64(-1), 0
+		for i := 0; i < 4000 && still < 3; i++ {
+			time.Sleep(100 * time.Microsecond)
+			if g := atomic.LoadInt64(&got); g == last {
+				still++
+			} else {
+				last, still = g, 0
+			}
+		}
+		l.add(evT{"ev": "Cut"})
+		go srv.Close()
+		// Server.Close only reaches connections whose serve goroutine has registered itself; one that
+		// was accepted a moment ago survives it.  That is outside C06 (the peer is not gone): the client
+		// then disconnects as well, and the usual cleanup is expected.
+		select {
+		case <-l.done:
+		case <-time.After(100 * time.Millisecond):
+			c.CloseWrite()
+		}
 	case "reset":
 		l.add(evT{"ev": "Cut"})
 		c.InjectPeerReadError(errors.New("read: connection reset by peer"))
@@ -396,6 +427,9 @@ func cutCases(stride int, rng *rand.Rand) []*caseT {
 			cuts := []string{"close"}
 			if stride <= 1 || k%stride == rng.Intn(stride) || k == len(t) {
 				cuts = append(cuts, "quiet-close", "reset")
+			}
+			if k%(4*stride) == 0 || k == len(t) {
+				cuts = append(cuts, "server-close")
 			}
 			for _, cut := range cuts {
 				cases = append(cases, &caseT{Name: name, Data: []byte(t[:k]), Cut: cut, Label: fmt.Sprintf("%s[:%d]/%s", name, k, cut)})
